@@ -129,7 +129,9 @@ def check_meaning(ctx, backend, e, text):
     sup = ent.prefix + t
     for tag in ent.tags:
         if tag.startswith("stem:"):
-            ctx.check(u.raw_name.startswith(tag[5:] + "."), "with_suffix() changed the encoded stem of the name", observed=u.raw_name, expected=tag[5:] + ".<suffix>", entry=e)
+            if "." not in t:
+                ctx.check(u.raw_name == tag[5:] + u.raw_suffix and decode_bytes(u.raw_name) == decode_bytes(tag[5:]) + b"." + t.encode(), "with_suffix() did not keep exactly the encoded stem of the name",
+                          observed=u.raw_name, expected=tag[5:] + ".<suffix>", entry=e)
     if "suffix" in ent.tags:
         if "." in t:
             ctx.label("skipped:suffix-with-dot")
